@@ -30,6 +30,15 @@ def _fill_cov(out, pid, pf, bad):
 def _report(out, pid, r, verdicts, known, confirmed, pf):
     """classification shared with the other trace checks"""
     attributable, seen = set(), set()
+    # a command that never replied: classified from its shape, never as a correspondence break
+    for sv in T.stalls(r):
+        attributable.add(sv["case"])
+        if sv["signature"] in known:
+            confirmed.setdefault(sv["signature"], sv)
+        elif sv["signature"] not in seen:
+            seen.add(sv["signature"])
+            out.violation(T.replay_of(pid, r, dict(sv, reason="a command never replied")))
+        verdicts = [v for v in verdicts if v["case"] != sv["case"] or v["step"] < sv["step"]]
     for v in verdicts:
         md = r.mdiffs.get(v["case"])
         before = md is None or v["step"] < md[0]
